@@ -231,22 +231,33 @@ def impl_obs(case):
             seg_target = zarr.storage.LocalStore(str(seg_path))
         else:
             seg_target = None
+        if case.get("geff_type") == "str":
+            geff_arg = str(geff_arg)
         if case.get("preexisting"):
-            # an older, different conversion already sits at the target(s)
-            old = {"shape": case["shape"], "frames": [[[77, [[0] * len(case["shape"])]]]], "table": [[77, 0, 0, 0]],
-                   "dtype": case.get("dtype", "uint16")}
+            # HISTORY: an older conversion of a DIFFERENT dataset A (possibly another zarr format / tczyx
+            # setting) already sits at the target(s); then the conversion under test runs onto it
+            pre = case.get("pre") or {"frames": [[[77, [[0] * len(case["shape"])]]]], "table": [[77, 0, 0, 0]]}
+            old = {"shape": case["shape"], "frames": pre["frames"], "table": pre["table"], "dtype": case.get("dtype", "uint16"),
+                   "tif_prefix": case.get("tif_prefix", "man_track"), "track_file": case.get("track_file", "man_track.txt")}
             (root / "old").mkdir()
             old_dir = write_dataset(old, root / "old")
             st = seg_target
             if seg_kind == "store":
                 st = zarr.storage.LocalStore(str(seg_path))
-            exc0, msg0 = _convert({**case, "via": "api"}, old_dir, geff_arg, st, False)
+            exc0, msg0 = _convert({**case, "via": "api", "zarr_format": case.get("pre_format", case.get("zarr_format", 2)),
+                                   "tczyx": case.get("pre_tczyx", case.get("tczyx"))}, old_dir, geff_arg, st, False)
             if exc0 is not None:
                 obs["pre_exc"] = [exc0, msg0]
-        exc, msg = _convert(case, ctc_dir, geff_arg, seg_target, bool(case.get("overwrite")))
+        with warnings.catch_warnings(record=True) as rec:
+            warnings.simplefilter("always")
+            exc, msg = _convert(case, ctc_dir, geff_arg, seg_target, bool(case.get("overwrite")))
+        warnings.simplefilter("ignore")
+        obs["warnings"] = sorted({f"{w.category.__name__}: {str(w.message)[:140]}" for w in rec})
         obs["exc"], obs["msg"] = exc, msg
         if exc is not None:
             return obs
+        # metadata files of which zarr format(s) sit in the geff directory after the conversion
+        obs["geff_meta_files"] = sorted(f for f in (".zgroup", ".zattrs", "zarr.json") if (geff_path / f).exists())
         obs["geff_exists"] = geff_path.exists()
         # structural validation, then read back
         try:
@@ -335,6 +346,18 @@ def judge(case, obs, fail):
             key = "C15:exception"
         fail(key, f"conversion of a consistent dataset raised {exc}: {obs.get('msg', '')}", exc, "a geff")
         return "exception"
+    # ---- warnings: nothing beyond what the unmodified converter emits for the same history
+    cross = bool(case.get("preexisting")) and case.get("pre_format", case.get("zarr_format", 2)) != case.get("zarr_format", 2)
+    unexpected = [w for w in obs.get("warnings", []) if not (
+        w.startswith(("DeprecationWarning", "PendingDeprecationWarning"))
+        or (cross and "is not recognized as a component of a Zarr hierarchy" in w)
+        or (not table and "input contained no data" in w))]
+    if unexpected:
+        fail("C15:unexpected-warning", f"conversion emitted {unexpected}", unexpected, [])
+    mf = obs.get("geff_meta_files")
+    if mf is not None and mf != ([".zattrs", ".zgroup"] if case.get("zarr_format", 2) == 2 else ["zarr.json"]):
+        fail("C15:mixed-zarr-formats", f"geff directory holds group metadata files {mf} after a zarr v{case.get('zarr_format', 2)} "
+             "conversion", mf, None)
     if "read_exc" in obs:
         fail("C15:unreadable", f"output cannot be read back: {obs['read_exc']}", obs["read_exc"], "readable geff")
         return "unreadable"
@@ -479,17 +502,19 @@ def random_config(rng, ndim):
     via = "cli" if (seg in ("none", "path") and rng.random() < 0.25) else "api"
     pre = rng.random() < 0.2
     return {"seg": seg, "tczyx": rng.random() < 0.4, "zarr_format": rng.choice([2, 3]),
+            "pre_format": rng.choice([2, 3]), "pre_tczyx": rng.random() < 0.4, "geff_type": rng.choice(["path", "str"]),
             "preexisting": pre, "overwrite": (rng.random() < 0.7) if pre else (rng.random() < 0.2),
             "via": via, "track_file": rng.choice(["man_track.txt", "res_track.txt"]),
             "tif_prefix": rng.choice(["man_track", "mask"]),
             "geff_arg": rng.choice(["out.zarr/tracks.geff", "out.zarr/tracks", "tracks.zarr"])}
 
 
-def build_case(rng, ndim, T, tracks, config=None, shuffle=False, drop_orphan_rows=False):
+def build_case(rng, ndim, T, tracks, config=None, shuffle=False, drop_orphan_rows=False, shape=None):
     """tracks: list of dict(L, frames=[t..], P)"""
-    shape = [5, 6] if ndim == 2 else [3, 4, 5]
-    if rng.random() < 0.3:
-        shape = [s + rng.randint(0, 2) for s in shape]
+    if shape is None:
+        shape = [5, 6] if ndim == 2 else [3, 4, 5]
+        if rng.random() < 0.3:
+            shape = [s + rng.randint(0, 2) for s in shape]
     per_frame = [sorted(tr["L"] for tr in tracks if t in tr["frames"]) for t in range(T)]
     table = [[tr["L"], min(tr["frames"]), max(tr["frames"]), tr["P"]] for tr in tracks]
     if shuffle:
@@ -572,6 +597,36 @@ def exhaustive_cases(rng, thorough):
     return cases
 
 
+def history_cases(rng, thorough):
+    """conversion HISTORIES: convert(A, fmt1) then convert(B, fmt2, overwrite=True) onto the same geff (and
+    segmentation) target, for all four (fmt1, fmt2) pairs x segmentation target {none, path, store} x tczyx,
+    geff target as str/Path, API and CLI; A is a different lineage (other number of frames / nodes)"""
+    tpl = templates()
+    pick = tpl if thorough else [t for t in tpl if t[0] in ("one-track", "division-2", "single-frame-three-labels")]
+    cases = []
+    for i, (name, T, tracks) in enumerate(pick):
+        for ndim in ((2, 3) if thorough else (rng.choice([2, 3]),)):
+            for f1 in (2, 3):
+                for f2 in (2, 3):
+                    for seg in ("none", "path", "store"):
+                        for tz in (False, True):
+                            via = "cli" if (seg in ("none", "path") and rng.random() < 0.4) else "api"
+                            cfg = {"seg": seg, "tczyx": tz, "zarr_format": f2, "pre_format": f1,
+                                   "pre_tczyx": tz if rng.random() < 0.7 else not tz, "preexisting": True, "overwrite": True,
+                                   "via": via, "geff_type": rng.choice(["path", "str"]),
+                                   "track_file": rng.choice(["man_track.txt", "res_track.txt"]),
+                                   "tif_prefix": rng.choice(["man_track", "mask"]),
+                                   "geff_arg": rng.choice(["out.zarr/tracks.geff", "out.zarr/tracks", "tracks.zarr"])}
+                            c = build_case(rng, ndim, T, tracks, cfg)
+                            an, aT, atracks = tpl[(tpl.index((name, T, tracks)) + rng.randint(1, len(tpl) - 1)) % len(tpl)]
+                            a = build_case(rng, ndim, aT, atracks, {}, shape=c["shape"])
+                            c["pre"] = {"frames": a["frames"], "table": a["table"], "template": an}
+                            c["template"] = name
+                            c["history"] = f"v{f1}->v{f2}"
+                            cases.append(c)
+    return cases
+
+
 def malformed_case(rng):
     """inconsistent datasets: only the model/implementation correspondence is checked"""
     c = random_case(rng)
@@ -617,7 +672,8 @@ def run(ck: common.Check):
     ck.rule = ("cases = corpus + 13 lineage templates (single frame, one-row table, gaps, late starts, 1/2/3 "
                "children, chains, two generations) x {2-D,3-D} x segmentation target {none,path,str,store} x "
                "tczyx x zarr_format x {fresh, overwrite, refuse} (all combinations in thorough, 2 sampled per "
-               "template/ndim/target in quick) + seeded random lineage forests (1..4(6) frames, labels with gaps, "
+               "template/ndim/target in quick) + conversion histories convert(A, fmt1) -> convert(B, fmt2, overwrite) for all "
+               "four format pairs x target {none,path,store} x tczyx, geff target as str/Path, API/CLI (warnings recorded) + seeded random lineage forests (1..4(6) frames, labels with gaps, "
                "random pixel sets, shuffled tables, dropped parentless rows, man_track/res_track, API and CLI) + a "
                "malformed stream (absent labels, empty/duplicated rows, no nodes) for the error outcomes; "
                "non-trivial = at least one edge expected; distinct = distinct canonical JSON of the case")
@@ -625,6 +681,7 @@ def run(ck: common.Check):
     cases = list(corpus())
     n_corpus = len(cases)
     cases += exhaustive_cases(ck.rng, thorough)
+    cases += history_cases(ck.rng, thorough)
     for _ in range(2400 if thorough else 200):
         cases.append(random_case(ck.rng, thorough))
     for _ in range(400 if thorough else 48):
